@@ -170,7 +170,9 @@ partial def pSV : P SV := do
   | "tuple" => do pure (.tuple (← pList pSV))
   | "tstruct" => do let n ← pStr; let es ← pList pSV; pure (.tupleStruct n es)
   | "tvar" => do let n ← pStr; let i ← pNat; let var ← pStr; let es ← pList pSV; pure (.tupleVariant n i var es)
-  | "map" => do
+  | "map" | "mapkv" => do
+    -- `mapkv`: the harness presents the entries through the split serialize_key /
+    -- serialize_value calls; serde defines serialize_entry as exactly that pair
     let l ← pOptNat
     let es ← pList (do let k ← pSV; let v ← pSV; pure (k, v))
     pure (.map l es)
